@@ -611,6 +611,15 @@ def r04_12(prog: Program, rep: Report, urows, pe):
     for p, ret in P.returns(P.paths_of(prog, cf)):
         if T.contains(ret, lambda x: x[0] == "call" and x[1][0] == "attr" and x[1][2] == "total_seconds") and not any(T.is_call_to(g, "builtins.isinstance") and pol and T.contains(g[2][1], lambda y: T.refname(y) in ("builtins.int", "builtins.float")) for g, pol in p.guards()):
             floaty.append(T.show(ret)[:80])
+    # the parsed value is a pendulum.Duration: its days/seconds/microseconds *properties* are recomputed from the float
+    # total (oracle.DURATION_FLOAT_ATTRS); only the base class's own operations read the exact fields
+    is_parse = lambda y: T.is_call_to(y, f"{C.SERDES}.dateparse")  # noqa: E731
+    for p, ret in P.returns(P.paths_of(prog, cf)):
+        if any(T.is_call_to(g, "builtins.isinstance") and pol and T.contains(g[2][1], lambda y: T.refname(y) in ("builtins.int", "builtins.float")) for g, pol in p.guards()):
+            continue
+        hits = [x for x in T.walk(ret) if x[0] == "attr" and x[2] in oracle.DURATION_FLOAT_ATTRS and T.contains(x[1], is_parse) and x != ret]
+        if hits and "total_seconds" not in {h[2] for h in hits}:
+            floaty.append(f"reads .{hits[0][2]} of the parsed value")
     rep.check(not floaty, "R04.12", r.routine.qualname, cf.loc, "a parsed duration is rebuilt from whole microseconds / exact fields, not from float seconds", f"the parsed duration is rebuilt through total_seconds() ({floaty[0] if floaty else ''}): a float has 53 bits, so beyond 2**33 seconds (about 272 years) microseconds come back wrong — 'P99420DT12H56M32.000001S' reads back as …000002", detail="exact-rebuild")
 
 
@@ -630,6 +639,10 @@ def r04_9(prog: Program, rep: Report):
                 tz = dict(now[3]).get("tz") or (now[2][0] if now[2] else None)
                 if all(kw.get(k) == ("attr", dt, k) for k in ("hour", "minute", "second", "microsecond")) and tz == ("attr", dt, "tzinfo"):
                     time_ok = True
+    # timestamp() of an aware datetime is offset arithmetic and total; converting to another zone first recomputes the
+    # wall-clock fields, which do not exist for instants before 0001-01-01 / after 9999-12-31 in that zone
+    rezoned = [T.show(r)[:80] for _, r in P.returns(P.paths_of(prog, f)) if T.contains(r, lambda x: x[0] == "call" and x[1][0] == "attr" and x[1][2] in ("astimezone", "utctimetuple", "in_timezone", "in_tz"))]
+    rep.check(not rezoned, "R04.9", f.qualname, f.loc, "the datetime's own timestamp() is taken (no zone conversion on the way)", f"unixtime converts the datetime to another zone before taking the timestamp ({rezoned[0] if rezoned else ''}): astimezone() raises OverflowError when the wall clock in that zone falls outside years 1..9999 (datetime(1,1,1,tzinfo=+14:00), datetime(9999,12,31,23,tzinfo=-12:00)), values whose timestamp() is well defined", detail="no-rezone")
     rep.check(td_ok, "R04.9", f.qualname, f.loc, "a duration becomes its total_seconds()", "unixtime(timedelta) is not dt.total_seconds()", detail="timedelta")
     rep.check(time_ok, "R04.9", f.qualname, f.loc, "a time is placed on today's date in its own zone, hour/minute/second/microsecond copied", "unixtime(time) does not copy all four clock fields onto now(tz=dt.tzinfo)", detail="time")
     for name in ("_nomalize_dt", "_normalize_number"):
